@@ -18,6 +18,7 @@ import (
 type FuncInfo struct {
 	fn    *ssa.Function
 	id    int
+	sid   string // run-independent identity (positions are compared across runs)
 	num   map[ssa.Value]int
 	nvals int
 	rpo   map[*ssa.BasicBlock]int
@@ -30,7 +31,7 @@ func (ex *Exec) info(fn *ssa.Function) *FuncInfo {
 	if fi, ok := ex.finfo[fn]; ok {
 		return fi
 	}
-	fi := &FuncInfo{fn: fn, id: len(ex.finfo) + 1, num: map[ssa.Value]int{}, rpo: map[*ssa.BasicBlock]int{},
+	fi := &FuncInfo{fn: fn, id: len(ex.finfo) + 1, sid: shortHash(fn.String()), num: map[ssa.Value]int{}, rpo: map[*ssa.BasicBlock]int{},
 		loops: map[*ssa.BasicBlock][]*ssa.BasicBlock{}, inLoop: map[*ssa.BasicBlock]map[*ssa.BasicBlock]bool{}}
 	ex.finfo[fn] = fi
 	n := 0
@@ -237,7 +238,7 @@ func (ex *Exec) position(st *State) {
 			ord = append(ord, f.fi.rpo[h], f.iters[h])
 		}
 		ord = append(ord, f.fi.rpo[f.block], f.pc)
-		fmt.Fprintf(&sb, "f%d:", f.fi.id)
+		fmt.Fprintf(&sb, "f%s:", f.fi.sid)
 		for _, x := range ord[start+1:] {
 			fmt.Fprintf(&sb, "%d,", x)
 		}
